@@ -41,6 +41,8 @@ TEXT = {
          "Pure functions: hundreds of thousands of generated values / literals per run; oracle is parse(canonical(v)) == v and big-integer / exact float range arithmetic independent of strconv's range handling."),
  "C16": ("native go fuzz targets (coverage-guided, thorough tier) and their rapid twins (quick tier) for parse.String at 72 types, the splitters, the 8 case decoders, ParsingDuration, the four decoders on raw bytes, env values and flag argv; plus rapid type-side checks feeding valid input through env / flag / pflag / decoders / mangler chains into types whose leaves are user-defined named types, user pointers and embedded structs",
          "In-target oracle: no panic, the call returns (20 s hang guard, 3 GiB heap watchdog), and on success the value has the requested type. Fuzzing cannot be pinned to a seed; saved failing inputs are the reproducible unit. One third-party finding (Cue evaluator memory blow-up) is listed as known and excluded by construction."),
+ "C17": ("rapid property tests on a real directory with a real WatchingSource in real time: histories of 1..12 file operations (in-place, rename-over, delete+recreate, Kubernetes ..data/..dir swap, plain symlink retarget; new / same / malformed / restored content; pauses 0/1/30 ms), JSON and YAML; convergence decided by polling plus the parked-goroutines rule, never by a bare timeout",
+         "After the last operation the view must equal decode(final content) over the defaults, or the last good config with a decoder error delivered; identical-bytes atomic replacement must not create a version (serial barrier argument, no wall-clock bound); after cancel WG.Wait returns, no file/fsnotify goroutine and no inotify descriptor remains. Kernel event timing is sampled, not owned; an unsettled wait is inconclusive (exit 2), never a violation."),
  "C18": ("rapid property tests of the ez entry points: per leaf a subset of {default, file, env, flag} with by-construction distinct values, four formats and all entry points, path from default/env/flag with decoy files, missing/malformed files, content-dependent Verify with a receiver log; watch-off cases inside a synctest bubble, watch-on cases in real time with later atomic file replacements",
          "First view must be flag > env > file > default per leaf; every Verify receiver must be a full stack (never the file-less intermediate); Verify failure is the entry point's error; nothing pending on Events / global callbacks at return; rewrites converge under the same precedence. No bare timeout is a violation (parked-goroutines rule, else inconclusive)."),
  "C19": ("rapid property tests: decode(encode(ws)) == ws for six schemes; Go identifiers assembled from words and initialisms must split into the assembly list",
